@@ -25,27 +25,22 @@ theorem issuerAuthentication_iff (f : Facts) : issuerAuthentication f = true ↔
 /-- Issuer authentication is reported Valid exactly when the message decrypts and decodes, carries
 an mDL document with a decodable x5chain in the unprotected header and the core namespace, chain
 validation against the IACA anchors reports no error, and the COSE_Sign1 verifies under the leaf
-key over the attached payload and protected header (for any message that does not make device
-authentication panic — see C15). -/
-theorem C03_issuer_valid_iff (f : Facts) (hnp : (handleResponse f).panics = false) :
+key over the attached payload and protected header. -/
+theorem C03_issuer_valid_iff (f : Facts) :
     (handleResponse f).issuer = .valid ↔
       f.decrypts = true ∧ f.decodes = true ∧ f.hasDocuments = true ∧ f.hasMdlDoc = true ∧
       f.x5chainPresent = true ∧ f.x5chainParses = true ∧ f.namespacesPresent = true ∧
       f.coreNamespacePresent = true ∧ f.chainErrors = 0 ∧ IssuerSignatureOk f := by
   rw [← issuerAuthentication_iff]
-  unfold handleResponse at hnp ⊢
+  unfold handleResponse
   by_cases h1 : (f.decrypts && f.decodes) = true
   · by_cases h2 : (f.hasDocuments && f.hasMdlDoc && f.x5chainPresent && f.x5chainParses && f.namespacesPresent && f.coreNamespacePresent) = true
-    · simp only [h1, h2, Bool.not_true, Bool.false_eq_true, if_false] at hnp ⊢
+    · simp only [h1, h2, Bool.not_true, Bool.false_eq_true, if_false]
       simp only [Bool.and_eq_true] at h1 h2
-      cases hd : deviceAuthentication f with
-      | none => simp [hd] at hnp
-      | some dev =>
-        simp only
-        by_cases hc : f.chainErrors = 0
-        · cases hi : issuerAuthentication f <;> simp [hc, hi, h1, h2]
-        · have : (f.chainErrors == 0) = false := by simpa using hc
-          simp [this, hc]
+      by_cases hc : f.chainErrors = 0
+      · cases hi : issuerAuthentication f <;> simp [hc, hi, h1, h2]
+      · have : (f.chainErrors == 0) = false := by simpa using hc
+        simp [this, hc]
     · simp only [h1, h2, Bool.not_true, Bool.false_eq_true, if_false, Bool.not_false, if_true]
       simp only [Bool.and_eq_true, not_and, Bool.not_eq_true] at h2
       constructor
@@ -59,34 +54,30 @@ theorem C03_issuer_valid_iff (f : Facts) (hnp : (handleResponse f).panics = fals
     · rintro ⟨a, b, _⟩; simp_all
 
 /-- Any non-Valid issuer status comes with an error entry. -/
-theorem C03_nonvalid_has_error (f : Facts) (hnp : (handleResponse f).panics = false)
+theorem C03_nonvalid_has_error (f : Facts)
     (h : (handleResponse f).issuer ≠ .valid) : (handleResponse f).errors ≠ [] := by
   unfold handleResponse at *
   by_cases h1 : (f.decrypts && f.decodes) = true
   · by_cases h2 : (f.hasDocuments && f.hasMdlDoc && f.x5chainPresent && f.x5chainParses && f.namespacesPresent && f.coreNamespacePresent) = true
     · simp only [h1, h2, Bool.not_true, Bool.false_eq_true, if_false] at *
-      cases hd : deviceAuthentication f with
-      | none => simp [hd] at hnp
-      | some dev =>
-        simp only [hd] at h ⊢
-        by_cases hc : (f.chainErrors == 0) = true
-        · cases hi : issuerAuthentication f
-          · simp [hc, hi]
-          · simp [hc, hi] at h
-        · simp [hc]
+      by_cases hc : (f.chainErrors == 0) = true
+      · cases hi : issuerAuthentication f
+        · simp [hc, hi]
+        · simp [hc, hi] at h
+      · simp [hc]
     · simp [h1, h2]
   · simp [h1]
 
 /-- The alterations of the statement, each as a corollary: an altered MSO / protected header /
 signature (the primitive no longer accepts), a substituted or untrusted certificate (chain
 errors, or a key under which the primitive does not accept), a missing or undecodable x5chain. -/
-theorem C03_not_valid_cases (f : Facts) (hnp : (handleResponse f).panics = false)
+theorem C03_not_valid_cases (f : Facts)
     (h : f.issuerSigAccepts = false ∨ f.issuerSigParses = false ∨ f.chainErrors ≠ 0 ∨
          f.x5chainPresent = false ∨ f.x5chainParses = false ∨ f.issuerKeyParses = false ∨
          f.issuerPayloadAttached = false) :
     (handleResponse f).issuer ≠ .valid := by
   intro hv
-  have := (C03_issuer_valid_iff f hnp).mp hv
+  have := (C03_issuer_valid_iff f).mp hv
   obtain ⟨_, _, _, _, hx, hxp, _, _, hc, hk, _, hp, hs, ha, _, _, _⟩ := this
   rcases h with h | h | h | h | h | h | h <;> simp_all
 
@@ -99,7 +90,7 @@ def honest : Facts :=
     deviceAlg := .assigned (-7), devicePayloadAttached := false, deviceSigParses := true, deviceSigAccepts := true,
     digestsMatch := true, docTypeMatches := true }
 
-example : handleResponse honest = ⟨.valid, .valid, [], true, false⟩ := by decide
+example : handleResponse honest = ⟨.valid, .valid, [], true⟩ := by decide
 example : (handleResponse { honest with issuerSigAccepts := false }).issuer = .invalid := by decide
 example : (handleResponse { honest with chainErrors := 2 }).errors = [.certificate] := by decide
 
